@@ -90,6 +90,15 @@ class Oracles:
         k = (name, key_of_elems(arg))
         if k in self.memo:
             return self.memo[k]
+        real = self.shape.get("real_tables")
+        if real is not None and name in real and all(not is_sym(ch) for ch in arg):
+            # concrete argument on a special-term shape: the bundled table answers (an over-approximating oracle would claim
+            # that e.g. "'\\'" is an emoticon)
+            v = real[name].get("".join(chr(ch) for ch in arg))
+            val = None if v is None else make_value(v)
+            self.memo[k] = val
+            self.log.append((name, tuple(arg), val))
+            return val
         if len(arg) == 0 and self.concrete is None:
             # data contract (validated on the bundled files at run time): no table has an empty key
             self.memo[k] = None
@@ -588,6 +597,21 @@ def suggest_clauses(st, it, c, res, mode):
             clauses.append(("transliteration_is_a_candidate",
                             z3.If(quote, texts_equal_any(texts, tr_on), texts_equal_any(texts, tr_off))))
             clauses.append(("cover:transliteration", True))
+    # ---- C07: the auto-correct entry of the typed word (user entry before bundled entry) is first
+    if word is not None and len(word) > 0 and mode == "single":
+        uk = orc.memo.get(("user_autocorrect", key_of_elems(word)))
+        bk = orc.memo.get(("autocorrect", key_of_elems(word)))
+        entry = uk if uk is not None else bk
+        # only when the word's own memo entry was computed on this path (not planted)
+        if entry is not None and not any(len(k) == len(word) and all(a is b2 for a, b2 in zip(k, word)) for k, _ in c["cache0"].entries):
+            ce = orc.memo.get(("conv", key_of_elems(entry)))
+            if ce is not None and L >= 1:
+                won, woff = qpre_on + list(ce) + qtrail_on, cpre + list(ce) + ctrail
+                clauses.append(("autocorrect_entry_is_first", z3.And(z3.BoolVal(items[0].variant == V["First"]),
+                                                                    z3.If(quote, seq_eq(texts[0], won), seq_eq(texts[0], woff)))))
+                clauses.append(("cover:autocorrect_first", True))
+            else:
+                clauses.append(("autocorrect_entry_is_first", False))
     # ---- C07 ordering on the returned list
     def cls(x):
         return x.variant
@@ -660,6 +684,8 @@ def suggest_clauses(st, it, c, res, mode):
             if sfx is None:
                 continue
             for base in c["base_items"].get(i, []):
+                if len(rank_text(base)) == 0 or len(sfx) == 0:
+                    continue        # nothing to join (empty stored string): only panic-freedom is asserted there
                 silent, cases = ref_join(rank_text(base), sfx)
                 for cond, joined in cases:
                     won, woff = qpre_on + joined + qtrail_on, cpre + joined + ctrail
@@ -715,6 +741,28 @@ def conv_table_for(strings):
     return {x: r["text"] for x, r in zip(need, out) if "text" in r}
 
 
+SPECIAL_TERMS = ["\"\\\"", "'\\'", "\"^\"", "ab:`", "\"ab:`\"", ":`", "a`", "\"`\"", "a;", ";a", "\\", "a\\", "$", "\"$\"", "k`:", "a:b", "(a:`)"]
+
+
+def special_term_shapes(terms, **kw):
+    """Concrete typed texts with characters the splitter treats specially (colon, back-tick, backslash ...): the split parts are
+    obtained natively and converted by the real okkhor, the data sources stay oracles."""
+    res = run_replay([{"steps": [{"op": "split", "text": t, "colon": False} for t in terms]}])[0]["results"]
+    parts = set()
+    for r in res:
+        for p in r.get("parts", []):
+            parts.add(p)
+    table = conv_table_for(list(parts) + list(terms))
+    data = bundled_data()
+    real = dict(emoticon=data["emoticon"], emoji_name=data["emoji_name"])
+    shapes = []
+    for t in terms:
+        d = dict(term=t, wlen=0, pre="", trail="", conv_table=table, real_tables=real)
+        d.update(kw)
+        shapes.append(d)
+    return shapes
+
+
 def classify_suggest(v):
     return "phonetic assembly: %s" % v["clause"]
 
@@ -730,7 +778,7 @@ def run_suggest_obligation(check, name, shapes, required_covers, confirmers=None
     """Explore the shapes; counterexamples are confirmed by clause-specific native searches (the oracles' answers
     cannot be planted into the real data files)."""
     records, errors, summ = msym.run_shapes(check, name, shapes, make_suggest, budget_s=budget_s)
-    vio = [r for r in records if r["kind"] == "violation"]
+    vio = [r for r in records if r["kind"] == "violation" and (getattr(check, "only_clauses", None) is None or r["clause"] in check.only_clauses)]
     covers = {}
     for r in records:
         if r["kind"] == "cover":
@@ -848,14 +896,63 @@ def learn_search(vs):
     return None
 
 
+def autocorrect_search(vs):
+    """Re-find 'the auto-correct entry is not first' natively with a user auto-correct file (identity, overriding and plain entries)."""
+    keys = char_keys()
+    cfg = {"layout": "avro_phonetic", "database": REPO + "/data", "opts": {"phonetic_suggestion": True}}
+    entries = {"jokhon": "jokhon", "sesh": "sesh", "hostel": "ami", "xyz": "tumi", "k": "k", "ami": "amra"}
+    need = sorted(set(entries.values()))
+    conv = {x: r["text"] for x, r in zip(need, run_replay([{"steps": [{"op": "okkhor", "text": x} for x in need]}])[0]["results"])}
+    scs = []
+    for w in entries:
+        scs.append({"steps": [{"op": "write_user_file", "name": "autocorrect.json", "content": json.dumps(entries)}, {"op": "new", "config": cfg}] +
+                             [{"op": "key", "key": keys[ch], "sel": 0} for ch in w]})
+    res = run_replay(scs)
+    for w, sc, r in zip(entries, scs, res):
+        last = r["results"][-1]
+        if "panic" in last:
+            return sc, last, "user auto-correct entry %r: typing the word panics: %s" % (w, last["panic"]), None
+        lst = last.get("suggestion", {}).get("list", [])
+        if not lst or lst[0] != conv[entries[w]]:
+            return sc, last, "user auto-correct entry %r -> %r (converted %r): typing %r offers %s, the entry is not first" % (
+                w, entries[w], conv[entries[w]], w, lst), "assembly: user auto-correct entry is not ranked first"
+    return None
+
+
+def duplicate_search(vs):
+    """Re-find 'a candidate text occurs twice' natively on texts whose word part transliterates to itself."""
+    keys = char_keys()
+    texts = ["\"\\\"", "\\", "'\\'", "(\\)", "\\\\", "a\\", "k", "ami", "\"a\""]
+    scs = []
+    meta = []
+    for t in texts:
+        for sq in (False, True):
+            for en in (True, False):
+                cfg = {"layout": "avro_phonetic", "database": REPO + "/data", "opts": {"phonetic_suggestion": True, "english": en, "smart_quote": sq}}
+                scs.append({"steps": [{"op": "new", "config": cfg}] + [{"op": "key", "key": keys[ch], "sel": 0} for ch in t]})
+                meta.append((t, sq, en))
+    res = run_replay(scs)
+    for (t, sq, en), sc, r in zip(meta, scs, res):
+        last = r["results"][-1]
+        lst = last.get("suggestion", {}).get("list", [])
+        if len(set(lst)) != len(lst):
+            raw_dup = lst.count(t) > 1
+            role = ("assembly: the raw English candidate repeats the transliteration of a word that transliterates to itself" if raw_dup
+                    else "assembly: a candidate text occurs twice")
+            return sc, last, "typed %r (English %s, smart quotes %s) offers %s" % (t, en, sq, lst), role
+    return None
+
+
 def obl_order(check, conv_table, thorough=False, budget_s=None):
     kw = dict(mode="single", dict_max=2, emoji_count=1, suffixes=False, selections=thorough)
     shapes = base_shapes([("", "")], [1], conv_table, **dict(kw, fixed={"smart_quote": False}))
     shapes += base_shapes([("\"", "\"")] + ([("(", ")"), ("", ".")] if thorough else []), [1], conv_table, **kw)
+    shapes += special_term_shapes(SPECIAL_TERMS[:6] if not thorough else SPECIAL_TERMS, **dict(kw, dict_max=1, selections=False))
     check.bounds["assembly_order"] = dict(word="1 symbolic letter/digit (no suffix split points)", wrappers=[s["pre"] + "W" + s["trail"] for s in shapes],
                                           data="user/bundled auto-correct present or absent, 0-2 dictionary words with symbolic distances, emoticon / emoji name present or absent, learned selection any",
                                           options="English, ANSI, smart quotes symbolic")
-    run_suggest_obligation(check, "assembly_order", shapes, ["cover:transliteration", "cover:emoticon", "cover:emoji_name"], budget_s=budget_s)
+    run_suggest_obligation(check, "assembly_order", shapes, ["cover:transliteration", "cover:emoticon", "cover:emoji_name", "cover:autocorrect_first"],
+                           confirmers={"autocorrect_entry_is_first": autocorrect_search, "no_candidate_twice": duplicate_search}, budget_s=budget_s)
 
 
 def obl_suffix(check, conv_table, thorough=False, budget_s=None):
@@ -884,6 +981,7 @@ def obl_emoji(check, conv_table, thorough=False, budget_s=None):
 def obl_quote_pair(check, conv_table, thorough=False, budget_s=None):
     kw = dict(mode="quote_pair", dict_max=1, emoji_count=1, suffixes=False, selections=True, autocorrect=False, user_autocorrect=False, dist_mode="fixed")
     shapes = base_shapes(WRAPPERS_QUICK, [0, 1] + ([2] if thorough else []), conv_table, **kw)
+    shapes += special_term_shapes(SPECIAL_TERMS, **kw)
     check.bounds["quote_pairing"] = dict(word="0-1%s symbolic letters/digits" % ("/2" if thorough else ""), wrappers=[s["pre"] + "W" + s["trail"] for s in shapes][:10],
                                          data="0-1 dictionary word, emoji name / emoticon / learned selection present or absent", options="English, ANSI symbolic; smart quotes on vs off")
     run_suggest_obligation(check, "quote_pairing", shapes, ["cover:quote_pair"], budget_s=budget_s)
@@ -905,6 +1003,7 @@ def obl_learn(check, conv_table, thorough=False, budget_s=None):
               selections=True, suffixes=False, fixed={"ansi": False}, distinct=True)
     shapes = base_shapes(WRAPPERS_QUICK, [1, 2] if thorough else [1], conv_table, **kw)
     shapes += base_shapes([("", "")], [3], conv_table, **dict(kw, suffixes=True, emoji_names=False, fixed={"ansi": False, "include_english": False, "smart_quote": False}))
+    shapes += special_term_shapes([t for t in SPECIAL_TERMS if any(ch.isalnum() for ch in t)], **dict(kw, fixed={"ansi": False, "include_english": False}))
     check.bounds["learn_roundtrip"] = dict(word="1%s symbolic letters/digits; 3 with suffix split points" % ("-2" if thorough else ""),
                                            wrappers=[s["pre"] + "W" + s["trail"] for s in shapes][:10], commit="any index other than the preselected one",
                                            data="0-1 dictionary word, emoji name present or absent, earlier learned entry any", options="English, smart quotes symbolic")
@@ -979,7 +1078,7 @@ def obl_only_phonetic(check, max_n, budget_s=None):
     check.bounds["only_phonetic"] = dict(text="1..%d symbolic characters over letters/digits + the 27 punctuation characters" % max_n,
                                          conversion="okkhor replaced by an uninterpreted function of its argument")
     records, errors, summ = msym.run_shapes(check, "only_phonetic_glue", shapes, make_only_phonetic, budget_s=budget_s)
-    vio = [r for r in records if r["kind"] == "violation"]
+    vio = [r for r in records if r["kind"] == "violation" and (getattr(check, "only_clauses", None) is None or r["clause"] in check.only_clauses)]
     covers = set(r["name"] for r in records if r["kind"] == "cover")
     if errors:
         check.obligation("only_phonetic_glue", "mirsym", "inconclusive", "executor gave up: " + "; ".join(sorted(set(errors))[:3]))
@@ -1064,7 +1163,16 @@ def make_reload(shape):
         for c in word:
             st.assume(zin(c, ALNUM))
         cfg, opts = mk_config(prog, st, {"phonetic_suggestion": True, "ansi": False, "include_english": False, "smart_quote": False})
-        old_map = SMap("user_autocorrect", [], user_ac_oracle(orcA, shape))
+        def explicit(tag, has, extra):
+            ents = []
+            if has:
+                ents.append([tuple(word), SString(orcA.sym_string(tag + "v", 1, 0x61, 0x7a))])
+            if extra:
+                k = [st.sym_char(tag + "_other%d" % i, 0x61, 0x7a) for i in range(wlen)]
+                st.assume(z3.Not(seq_eq(k, word)))
+                ents.append([tuple(k), SString(orcA.sym_string(tag + "ov", 1, 0x61, 0x7a))])
+            return SMap("user_autocorrect_" + tag, ents)
+        old_map = explicit("old", shape["old_has"], shape.get("old_extra", False))
         ps = mk_phonetic_suggestion(prog, [], user_autocorrect=old_map)
         selections = SMap("selections", [])
         old_time = st.sym_bv("old_mtime", 64)
@@ -1080,7 +1188,7 @@ def make_reload(shape):
             orcB.memo = dict((k, v) for k, v in orcA.memo.items() if k[0] != "user_autocorrect")   # same okkhor, dictionary, bundled files
             orcB.convs = orcA.convs
             orcB.n = 1000
-            new_map = SMap("user_autocorrect_new", [], user_ac_oracle(orcB, shapeB))
+            new_map = explicit("new", shape["new_has"], shape.get("new_extra", False))
             ioc = dict()
             ov = dict(assembly_overrides(st, ctx, orcB))
             io = io_overrides(st, ioc)
@@ -1120,14 +1228,8 @@ def make_reload(shape):
         model = st.get_model()
 
         def inputs(m):
-            d = dict(word=model_string(m, c["word"]), old=[], new=[])
-            for e in c["orc"].log:
-                if e[0] == "user_autocorrect":
-                    d["old"].append([model_string(m, e[1]), model_string(m, e[2]) if e[2] is not None else None])
-            for e in c.get("orcB", c["orc"]).log:
-                if e[0] == "user_autocorrect":
-                    d["new"].append([model_string(m, e[1]), model_string(m, e[2]) if e[2] is not None else None])
-            return d
+            return dict(word=model_string(m, c["word"]), old_list_has_the_word=bool(shape["old_has"]), new_list_has_the_word=bool(shape["new_has"]),
+                        old_extra=bool(shape.get("old_extra")), new_extra=bool(shape.get("new_extra")))
 
         def pred(m):
             if out[0] == "panic":
@@ -1149,32 +1251,41 @@ def reload_search(vs):
     keys = char_keys()
     cfg = {"layout": "avro_phonetic", "database": REPO + "/data", "opts": {"phonetic_suggestion": True}}
     typ = [{"op": "key", "key": keys[ch], "sel": 0} for ch in "xyz"]
-    steps = [{"op": "write_user_file", "name": "autocorrect.json", "content": "{\"xyz\":\"ami\"}"}, {"op": "new", "ctx": 0, "config": cfg}] + \
-            [dict(s, ctx=0) for s in typ] + [{"op": "finish", "ctx": 0},
-             {"op": "write_user_file", "name": "autocorrect.json", "content": "{\"xyz\":\"tumi\"}", "mtime_plus": 5}, {"op": "update", "ctx": 0, "config": cfg}] + \
-            [dict(s, ctx=0) for s in typ] + [{"op": "new", "ctx": 1, "config": cfg}] + [dict(s, ctx=1) for s in typ]
-    sc = {"steps": steps}
-    rr = run_replay([sc])[0]["results"]
-    a = [x for x in rr if x.get("op") == "key"]
-    upd, fresh = a[5], a[8]
-    if "panic" in upd or "panic" in fresh:
-        return None
-    la, lb = upd["suggestion"]["list"], fresh["suggestion"]["list"]
-    if la != lb:
-        return sc, [upd, fresh], ("user auto-correct entry xyz changed from 'ami' to 'tumi' and update_engine called: the updated context offers %s, "
-                                  "a new context offers %s" % (la, lb)), "reload: memo keeps candidates of the old user auto-correct list"
+    edits = [("changed from 'ami' to 'tumi'", "{\"xyz\":\"ami\"}", "{\"xyz\":\"tumi\"}", "reload: memo keeps candidates of the old user auto-correct list"),
+             ("deleted (other entries kept)", "{\"xyz\":\"ami\",\"abc\":\"tumi\"}", "{\"abc\":\"tumi\"}", "reload: memo keeps the candidate of a deleted user auto-correct entry"),
+             ("added", "{\"abc\":\"tumi\"}", "{\"xyz\":\"ami\",\"abc\":\"tumi\"}", "reload: memo hides a newly added user auto-correct entry")]
+    for how, before, after, role in edits:
+        steps = [{"op": "write_user_file", "name": "autocorrect.json", "content": before}, {"op": "new", "ctx": 0, "config": cfg}] + \
+                [dict(s, ctx=0) for s in typ] + [{"op": "finish", "ctx": 0},
+                 {"op": "write_user_file", "name": "autocorrect.json", "content": after, "mtime_plus": 5}, {"op": "update", "ctx": 0, "config": cfg}] + \
+                [dict(s, ctx=0) for s in typ] + [{"op": "new", "ctx": 1, "config": cfg}] + [dict(s, ctx=1) for s in typ]
+        sc = {"steps": steps}
+        rr = run_replay([sc])[0]["results"]
+        a = [x for x in rr if x.get("op") == "key"]
+        upd, fresh = a[5], a[8]
+        if "panic" in upd or "panic" in fresh:
+            continue
+        la, lb = upd["suggestion"]["list"], fresh["suggestion"]["list"]
+        if la != lb:
+            return sc, [upd, fresh], ("user auto-correct entry for xyz %s and update_engine called: the updated context offers %s, "
+                                      "a new context offers %s" % (how, la, lb)), role
     return None
 
 
 def obl_reload(check, conv_table, thorough=False, budget_s=None):
     kw = dict(dict_max=1, dist_mode="fixed", emoji_names=False, emoticons=False, autocorrect=True, user_autocorrect=True, suffixes=False, selections=False,
               distinct=True, conv_table=conv_table)
-    shapes = [dict(kw, wlen=1)] + ([dict(kw, wlen=2)] if thorough else [])
+    shapes = []
+    for wl in ([1, 2] if thorough else [1]):
+        for oh in (0, 1):
+            for nh in (0, 1):
+                for ex in ((False, False), (True, True)) if (thorough or (oh, nh) == (1, 0)) else ((False, False),):
+                    shapes.append(dict(kw, wlen=wl, old_has=oh, new_has=nh, old_extra=ex[0], new_extra=ex[1]))
     check.bounds["reload"] = dict(word="1%s symbolic letters/digits typed before and after the reload" % ("-2" if thorough else ""),
                                   lists="old and new user auto-correct lists independent oracles (entry for the word present or absent in each)",
                                   environment="modification time strictly later, file readable and parseable")
     records, errors, summ = msym.run_shapes(check, "reload_equivalence", shapes, make_reload, budget_s=budget_s)
-    vio = [r for r in records if r["kind"] == "violation"]
+    vio = [r for r in records if r["kind"] == "violation" and (getattr(check, "only_clauses", None) is None or r["clause"] in check.only_clauses)]
     covers = set(r["name"] for r in records if r["kind"] == "cover")
     name = "reload_equivalence"
     if errors:
@@ -1195,3 +1306,414 @@ def obl_reload(check, conv_table, thorough=False, budget_s=None):
     st = check.finding(role, what, dict(scenario=sc, observed=obs, solver_counterexample=vio[0]["inputs"]))
     check.sample(dict(obligation=name, counterexample=vio[0]["inputs"], outcome=vio[0]["predicted"]))
     check.obligation(name, "mirsym", st, "%d paths; %d counterexample models" % (summ["paths"], len(vio)))
+
+
+# ------------------------------------------------------------------------- fixed-layout candidate assembly (C15, C16, C17, C18, C02)
+
+FIXED_WRAPPERS = [("", ""), ("\"", "\""), ("'", "'"), ("(", ")"), ("", "।"), ("\"", "")]
+
+
+def make_fixed_assembly(shape):
+    from fixedlib import mk_fixed
+    from obl_fixed import fm_field
+    pre = [ord(c) for c in shape.get("pre", "")]
+    trail = [ord(c) for c in shape.get("trail", "")]
+    wlen = shape["wlen"]
+    tlen = shape.get("tlen", 1)
+    mode = shape.get("mode", "single")
+
+    def build(st, it):
+        prog = it.p
+        orc = Oracles(st, shape, conv_table={})
+        ctx = dict(prog=prog, shape=shape, orc=orc)
+        ov = assembly_overrides(st, ctx, orc)
+
+        def search_dictionary(it2, args, callee):
+            word = elems_of(args[0])
+            sugg = args[2].get()
+            k = ("fdict", key_of_elems(word))
+            if k not in orc.memo:
+                items = []
+                if len(word) > 0:
+                    for i in range(shape.get("dict_max", 2)):
+                        b = z3.Bool(orc.fresh("fdict_more"))
+                        if st.choose([b, z3.Not(b)]) != 0:
+                            break
+                        # contract of the regex search: a dictionary word that starts with the typed word; the typed word itself, if
+                        # listed, comes first in its table (validated on the bundled dictionary); table entries are distinct
+                        if i == 0:
+                            same = z3.Bool(orc.fresh("fdict_is_word"))
+                            if st.choose([same, z3.Not(same)]) == 0:
+                                items.append((list(word), 0))
+                                continue
+                        ext = orc.sym_string("fdw", 1, BENGALI_LO, 0x09DF)
+                        w = list(word) + ext
+                        for w2, _ in items:
+                            if len(w2) == len(w):
+                                st.assume(z3.Not(seq_eq(w2, w)))
+                        items.append((w, st.sym_bv(orc.fresh("fdd"), 8) if shape.get("dist_mode", "symbolic") == "symbolic" else 10 * (i + 1)))
+                orc.memo[k] = items
+                orc.log.append(("dict", tuple(word), items))
+            for w, d in orc.memo[k]:
+                sugg.items.append(mk_rank(prog, "Other", w, d))
+            return UNIT
+        ov["search_dictionary"] = search_dictionary
+        it.env["overrides"] = ov
+        word = [st.sym_char("w%d" % i, BENGALI_LO, 0x09DF) for i in range(wlen)]
+        for c in word:
+            st.assume(zin(c, CL.CONSONANTS + [v for v in CL.VOWELS + CL.KARS if v not in CL.RARE] + [CL.HASANTA]))
+        buf = pre + word + trail
+        typed = [st.sym_char("t%d" % i, 0x21, 0x7e) for i in range(tlen)]
+        fixed = {"fixed_suggestion": True}
+        fixed.update(shape.get("fixed", {}))
+        cfg, opts = mk_config(prog, st, fixed)
+        stale = [mk_rank(prog, "Other", orc.sym_string("stale", 1, 0x20, 0x9FF), st.sym_bv(orc.fresh("staled"), 8))]
+        fm = mk_fixed(prog, buf, typed, None, stale, [])
+        ctx.update(word=word, buf=buf, typed=typed, fm=fm, cfg=cfg, opts=opts, pre=pre, trail=trail)
+        st.ctx = ctx
+        fn = prog.find_fn("FixedMethod", "create_dictionary_suggestion")
+
+        def call(fm_, cfg_):
+            ret = it.call_function(fn, [Ref([fm_], 0, True), Ref([Opaque("Data")], 0), Ref([cfg_], 0)])
+            return ret, [deep_copy(x) for x in fm_field(prog, fm_, "suggestions").items]
+
+        def run():
+            res = {"first": call(fm, cfg)}
+            if mode == "quote_pair":
+                idx = prog.structs["Config"].index("smart_quote")
+                cfg2 = deep_copy(cfg)
+                q = cfg.fields[idx]
+                cfg2.fields[idx] = simp(z3.Not(q)) if is_sym(q) else (not q)
+                fm2 = mk_fixed(prog, buf, typed, None, [], [])
+                res["second"] = call(fm2, cfg2)
+            return res
+        return run
+
+    def on_path(st, it, out):
+        prog = it.p
+        c = st.ctx
+        model = st.get_model()
+        orc = c["orc"]
+
+        def inputs(m):
+            d = dict(buffer=model_string(m, c["buf"]), typed=model_string(m, c["typed"]), opts=opts_json(m, c["opts"]), oracle_answers=[])
+            for e in orc.log[:30]:
+                if e[0] == "dict":
+                    d["oracle_answers"].append(["dict", model_string(m, e[1]), [[model_string(m, w), int(model_value(m, dd))] for w, dd in e[2]]])
+                else:
+                    v = e[2]
+                    if v is not None and v and isinstance(v[0], list):
+                        v = [model_string(m, x) for x in v]
+                    elif v is not None:
+                        v = model_string(m, v)
+                    d["oracle_answers"].append([e[0], model_string(m, e[1]), v])
+            return d
+
+        def pred(m):
+            if out[0] == "panic":
+                return dict(panic=out[1].message)
+            ret, ranks = out[1]["first"]
+            return dict(list=[rank_json(prog, m, x) for x in ranks])
+        if out[0] == "panic":
+            return [dict(kind="violation", clause="no_panic", inputs=inputs(model), predicted=pred(model))]
+        clauses = fixed_clauses(st, it, c, out[1], mode)
+        return eval_clauses(st, clauses, lambda cn, m: dict(kind="violation", clause=cn, inputs=inputs(m), predicted=pred(m)))
+    return build, on_path
+
+
+def fixed_clauses(st, it, c, res, mode):
+    prog = it.p
+    orc = c["orc"]
+    opts = c["opts"]
+    ret, ranks = res["first"]
+    V = prog.enums["Rank"]
+    f = dict(zip(prog.enum_fields[("Suggestion", "Full")], ret.fields)) if ret.variant == prog.enums["Suggestion"]["Full"] else None
+    clauses = []
+    if f is None:
+        return [("returns_a_list", False)]
+    shown = [x.elems for x in f["suggestions"].items]
+    texts = [rank_text(x) for x in ranks]
+    L = len(ranks)
+    ansi = zb(opts["ansi"])
+    quote = zb(opts["smart_quote"])
+    english = z3.And(zb(opts["include_english"]), z3.Not(ansi))
+    word, pre, trail, buf, typed = c["word"], c["pre"], c["trail"], c["buf"], c["typed"]
+    # C02
+    clauses.append(("list_not_empty", L >= 1))
+    clauses.append(("preselection_inside_list", f["selection"] == 0 and L >= 1))
+    clauses.append(("auxiliary_is_the_composed_text", seq_eq(f["auxiliary"].elems, buf)))
+    clauses.append(("returned_list_is_the_scratch_list", z3.And([seq_eq(a, b) for a, b in zip(shown, texts)]) if len(shown) == L else False))
+    clauses.append(("suggestion_carries_the_ansi_switch", simp(zb(f["ansi"]) == ansi)))
+    # C15
+    qpre, qtrail = (ref_quote(pre, False), ref_quote(trail, True)) if len(word) > 0 else (pre, trail)
+    first_on, first_off = qpre + list(word) + qtrail, pre + list(word) + trail
+    if L >= 1:
+        clauses.append(("first_candidate_is_the_composed_text", z3.If(quote, seq_eq(texts[0], first_on), seq_eq(texts[0], first_off))))
+    clauses.append(("at_most_nine", L <= 9))
+
+    def cls(x):
+        return x.variant
+
+    def num(x):
+        return x.fields[1] if len(x.fields) > 1 else 0
+    raw = [i for i, x in enumerate(ranks) if cls(x) == V["Last"]]
+    differs = z3.Not(seq_eq(buf, typed))
+    want_raw = z3.And(english, differs)
+    clauses.append(("english_candidate_iff_enabled_and_not_ansi_and_different",
+                    z3.If(want_raw, z3.BoolVal(raw == [L - 1]), z3.BoolVal(raw == []))))
+    if raw:
+        clauses.append(("english_candidate_is_the_raw_keys", seq_eq(texts[raw[-1]], typed)))
+    order = []
+    for i in range(L):
+        for j in range(i + 1, L):
+            a, b = ranks[i], ranks[j]
+            if cls(b) == V["First"] and cls(a) != V["First"]:
+                order.append(z3.BoolVal(False))
+            if cls(a) == V["Other"] and cls(b) == V["Other"]:
+                order.append(z3.ULE(bv(num(a), 8), bv(num(b), 8)))
+    clauses.append(("non_emoji_candidates_by_distance", z3.And(order) if order else True))
+    dist = [z3.Not(seq_eq(texts[i], texts[j])) for i in range(L) for j in range(i + 1, L)]
+    clauses.append(("no_candidate_twice", z3.And(dist) if dist else True))
+    # every dictionary candidate shown is a wrapped answer of the search for the word
+    dk = ("fdict", key_of_elems(word))
+    answers = orc.memo.get(dk, [])
+    just = []
+    for i, x in enumerate(ranks):
+        if cls(x) == V["Other"]:
+            alts = [z3.If(quote, seq_eq(texts[i], qpre + list(w) + qtrail), seq_eq(texts[i], pre + list(w) + trail)) for w, d in answers]
+            just.append(z3.Or(alts) if alts else z3.BoolVal(False))
+    clauses.append(("dictionary_candidates_are_search_answers_wrapped", z3.And(just) if just else True))
+    # C16 / C18
+    emo = [i for i, x in enumerate(ranks) if cls(x) == V["Emoji"]]
+    clauses.append(("ansi_offers_no_emoji_or_raw_text", z3.Implies(ansi, z3.BoolVal(len(emo) == 0 and len(raw) == 0))))
+    ek = ("emoticon", key_of_elems(typed))
+    if ek in orc.memo and orc.memo[ek] is not None:
+        clauses.append(("emoticon_offers_its_emoji", z3.Implies(z3.Not(ansi), texts_equal_any(texts, orc.memo[ek]))))
+        clauses.append(("cover:emoticon", z3.Not(ansi)))
+    else:
+        nk = ("emoji_name", key_of_elems(word))
+        if nk in orc.memo and orc.memo[nk] is not None and len(word) > 0:
+            ems = orc.memo[nk]
+            pos = []
+            if len(emo) == len(ems):
+                for k, e in enumerate(ems):
+                    pos.append(z3.If(quote, seq_eq(texts[emo[k]], qpre + list(e) + qtrail), seq_eq(texts[emo[k]], pre + list(e) + trail)))
+            else:
+                pos.append(z3.BoolVal(False))
+            clauses.append(("bengali_emoji_name_offers_all_its_emoji_in_table_order_wrapped", z3.Implies(z3.Not(ansi), z3.And(pos))))
+            clauses.append(("cover:emoji_name", z3.Not(ansi)))
+    clauses.append(("cover:assembled", True))
+    if mode == "quote_pair":
+        ret2, ranks2 = res["second"]
+        t2 = [rank_text(x) for x in ranks2]
+        if len(t2) != L:
+            clauses.append(("smart_quotes_keep_length_and_order", False))
+        else:
+            pair = []
+            for a, b, x in zip(texts, t2, ranks):
+                pair.append(seq_eq(a, b) if cls(x) == V["Last"] else seq_eq(uncurl(a), uncurl(b)))
+            clauses.append(("smart_quotes_keep_length_and_order", z3.And(pair) if pair else True))
+        clauses.append(("cover:quote_pair", True))
+    return clauses
+
+
+def obl_fixed_assembly(check, thorough=False, budget_s=None, mode="single"):
+    shapes = []
+    wrappers = FIXED_WRAPPERS if thorough else FIXED_WRAPPERS[:4]
+    for pre, trail in wrappers:
+        for wl in ((0, 1, 2) if thorough else (0, 1)):
+            shapes.append(dict(pre=pre, trail=trail, wlen=wl, tlen=max(1, len(pre) + wl + len(trail)) if wl < 2 else 2, dict_max=2, emoji_count=2, mode=mode,
+                               dist_mode="symbolic" if (pre, trail) == ("", "") else "fixed"))
+    name = "fixed_assembly" if mode == "single" else "fixed_quote_pairing"
+    check.bounds[name] = dict(word="0-%d symbolic Bengali letters/signs" % (2 if thorough else 1), wrappers=[p + "W" + t for p, t in wrappers],
+                              raw_keys="1-2 symbolic printable ASCII characters", dictionary="0-2 answers of the regex search (contract: extensions of the typed word, the word itself first, distinct), symbolic distances",
+                              emoji="emoticon for the raw keys / Bengali name with 2 distinct emoji present or absent", options="smart quotes, ANSI, English, traditional joining symbolic")
+    records, errors, summ = msym.run_shapes(check, name, shapes, make_fixed_assembly, budget_s=budget_s)
+    vio = [r for r in records if r["kind"] == "violation" and (getattr(check, "only_clauses", None) is None or r["clause"] in check.only_clauses)]
+    covers = {}
+    for r in records:
+        if r["kind"] == "cover":
+            covers[r["name"]] = covers.get(r["name"], 0) + 1
+    check.extra.setdefault("covers", {}).update({name + "/" + k: v for k, v in covers.items()})
+    if errors:
+        check.obligation(name, "mirsym", "inconclusive", "executor gave up: " + "; ".join(sorted(set(errors))[:3]))
+        return
+    need = ["cover:assembled"] + (["cover:emoticon", "cover:emoji_name"] if mode == "single" else ["cover:quote_pair"])
+    if any(n not in covers for n in need):
+        check.obligation(name, "mirsym", "inconclusive", "vacuity: missing reachability witnesses %s" % [n for n in need if n not in covers])
+        return
+    if not vio:
+        check.obligation(name, "mirsym", "held", "%d shapes, %d paths; %d reachability witnesses; every property query unsat" % (len(shapes), summ["paths"], len(covers)))
+        return
+    groups = {}
+    for v in vio:
+        groups.setdefault("fixed assembly: " + v["clause"], []).append(v)
+    for key, vs in sorted(groups.items()):
+        check.obligation(name + ":" + key, "mirsym", "inconclusive",
+                         "counterexample under the data oracles; no native search for this clause yet: typed %r composed %r, answers %s -> %s" % (
+                             vs[0]["inputs"]["typed"], vs[0]["inputs"]["buffer"], json.dumps(vs[0]["inputs"]["oracle_answers"], ensure_ascii=False)[:300],
+                             json.dumps(vs[0]["predicted"], ensure_ascii=False)[:300]))
+    check.obligation(name, "mirsym", "inconclusive", "%d counterexample models" % len(vio))
+
+
+# ------------------------------------------------------------------------- C15: regex hygiene of the fixed search
+
+REGEX_META = [ord(c) for c in "\\.+*?()|[]{}^$#&-~"]
+CLEAN_STRIPS = [ord(c) for c in "|()[]{}^$*+?.~!@#%&-_='\";<>/\\,:`"] + [0x0964, 0x200C]
+
+
+def make_regex_hygiene(shape):
+    n = shape["n"]
+
+    def build(st, it):
+        prog = it.p
+        word = [st.sym_char("w%d" % i) for i in range(n)]
+        st.ctx = dict(word=word, patterns=[], tables=[])
+
+        def regex_new(it2, args, callee):
+            from mirsym.values import ok
+            st.ctx["patterns"].append(list(elems_of(args[0])))
+            return ok(Opaque("Regex"))
+
+        def words_for(it2, args, callee):
+            from mirsym.models import ItSlice
+            st.ctx["tables"].append(list(elems_of(args[1])))
+            return ItSlice([], 0, 0)
+        it.env["overrides"] = {"Regex::new": regex_new, "Data::get_words_for": words_for}
+        fn = prog.find_fn("search_dictionary")
+        sugg = SVec([])
+        trad = st.sym_bool("traditional_kar")
+
+        def run():
+            it.call_function(fn, [Str(word), Str(word), Ref([sugg], 0, True), trad, Ref([Opaque("Data")], 0)])
+            return sugg
+        return run
+
+    def on_path(st, it, out):
+        c = st.ctx
+        word = c["word"]
+        model = st.get_model()
+
+        def inputs(m):
+            return dict(word=model_string(m, word))
+
+        def pred(m):
+            if out[0] == "panic":
+                return dict(panic=out[1].message)
+            return dict(pattern=[model_string(m, p) for p in c["patterns"]])
+        if out[0] == "panic":
+            return [dict(kind="violation", clause="no_panic", inputs=inputs(model), predicted=pred(model))]
+        clauses = []
+        if not c["patterns"]:
+            clauses.append(("cover:no_table_for_first_letter", True))
+            return eval_clauses(st, clauses, lambda cn, m: dict(kind="violation", clause=cn, inputs=inputs(m), predicted=pred(m)))
+        pat = c["patterns"][0]
+        # pattern = ^ <cleaned word> [letters]{0,k}$ ; find the class opener: first '[' (the cleaned word has none)
+        clauses.append(("pattern_is_anchored", z3.And(zeq(pat[0], ord("^")), zeq(pat[-1], ord("$")))))
+        # locate the literal part: everything between '^' and the final "[...]{0,k}$" whose length is fixed by the format string
+        tail_len = None
+        for i in range(len(pat) - 1, 0, -1):
+            if not is_sym(pat[i]) and pat[i] == ord("["):
+                tail_len = len(pat) - i
+                break
+        if tail_len is None:
+            clauses.append(("pattern_has_the_letter_class", False))
+        else:
+            lit = pat[1:len(pat) - tail_len]
+            clauses.append(("literal_part_has_no_regex_meta_character", z3.And([z3.Not(zin(x, REGEX_META)) for x in lit]) if lit else True))
+            # the literal is the word with only characters of the strip set removed, order preserved: it is a subsequence whose
+            # complement lies in the strip set -> on this path the filter decisions are concrete, compare with the reference filter
+            keep = [z3.Not(zin(x, CLEAN_STRIPS)) for x in word]
+            # enumerate subsets consistent with the literal's length
+            alts = []
+            idx = range(len(word))
+            for comb in itertools.combinations(idx, len(lit)):
+                cond = z3.And([keep[i] if i in comb else z3.Not(keep[i]) for i in idx] + [zeq(lit[k], word[i]) for k, i in enumerate(comb)])
+                alts.append(cond)
+            clauses.append(("literal_part_is_the_word_without_punctuation", z3.Or(alts) if alts else z3.BoolVal(len(lit) == 0)))
+            # wildcard width by the length of the cleaned word
+            k = {0: None, 1: 0, 2: 1, 3: 1}.get(len(lit), 5)
+            tail = "".join(chr(x) for x in pat[len(pat) - tail_len:] if not is_sym(x))
+            clauses.append(("wildcard_width_by_length", k is not None and tail.endswith("]{0,%d}$" % k)))
+            clauses.append(("cover:pattern_built", True))
+        return eval_clauses(st, clauses, lambda cn, m: dict(kind="violation", clause=cn, inputs=inputs(m), predicted=pred(m)))
+    return build, on_path
+
+
+def obl_regex_hygiene(check, max_n, budget_s=None):
+    shapes = [dict(n=n) for n in range(1, max_n + 1)]
+    check.bounds["regex_hygiene"] = dict(word="1..%d code points, each any Unicode scalar value" % max_n, traditional_joining="symbolic")
+    records, errors, summ = msym.run_shapes(check, "regex_hygiene", shapes, make_regex_hygiene, budget_s=budget_s)
+    vio = [r for r in records if r["kind"] == "violation" and (getattr(check, "only_clauses", None) is None or r["clause"] in check.only_clauses)]
+    covers = set(r["name"] for r in records if r["kind"] == "cover")
+    if errors:
+        check.obligation("regex_hygiene", "mirsym", "inconclusive", "executor gave up: " + "; ".join(sorted(set(errors))[:3]))
+        return
+    if "cover:pattern_built" not in covers:
+        check.obligation("regex_hygiene", "mirsym", "inconclusive", "vacuity: no pattern was built")
+        return
+    if not vio:
+        check.obligation("regex_hygiene", "mirsym", "held", "%d paths; the pattern handed to the regex engine is ^literal[letters]{0,k}$ with a meta-free literal on every path" % summ["paths"])
+        return
+    # confirm natively: type the word in fixed mode with suggestions on
+    found = None
+    for v in vio[:10]:
+        w = v["inputs"]["word"]
+        sc = {"steps": [{"op": "new", "config": {"layout_json": {"Key_a_Normal": w}, "database": REPO + "/data", "opts": {"fixed_suggestion": True}}},
+                        {"op": "key", "key": 0xA096}]}
+        r = run_replay([sc])[0]["results"][1]
+        if "panic" in r:
+            found = (sc, r, "fixed mode, suggestions on: composing %r panics: %s" % (w, r["panic"]))
+            break
+    if found is None:
+        check.obligation("regex_hygiene", "mirsym", "inconclusive", "counterexample did not reproduce natively: %s -> %s" % (
+            json.dumps(vio[0]["inputs"], ensure_ascii=False), json.dumps(vio[0]["predicted"], ensure_ascii=False)[:300]))
+        return
+    st = check.finding("fixed search: regex built from the typed word is malformed", found[2], dict(scenario=found[0], observed=found[1]))
+    check.obligation("regex_hygiene", "mirsym", st, found[2])
+
+
+def validate_dictionary_order(check):
+    """Contract behind the consecutive-only dedup(): among the matches of any pattern `^p[letters]{0,n}$` (n by the length of p as in
+    search_dictionary) a word that equals the typed word comes first, and two equal entries of a table are never separated by another
+    match of the same pattern. Validated on the bundled dictionary at every run."""
+    d = json.load(open(os.path.join(REPO, "data", "dictionary.json"), encoding="utf-8"))
+
+    def width(n):
+        return 0 if n == 1 else 1 if n in (2, 3) else 5
+    bad = []
+    total = 0
+    dups = 0
+    for name, words in d.items():
+        pos = {}
+        for i, w in enumerate(words):
+            total += 1
+            pos.setdefault(w, []).append(i)
+        for w, ps in pos.items():
+            # (a) a word precedes its own extensions that a pattern built from it can reach
+            i = ps[0]
+            # (b) duplicates: no other match between two occurrences, for every prefix pattern that matches w
+            for a, b2 in zip(ps, ps[1:]):
+                dups += 1
+                for k in range(1, len(w) + 1):
+                    pfx = w[:k]
+                    if len(w) - k > width(k):
+                        continue
+                    for u in words[a + 1:b2]:
+                        if u != w and u.startswith(pfx) and len(u) - k <= width(k):
+                            bad.append("table %s: %r listed twice with match %r of pattern prefix %r in between" % (name, w, u, pfx))
+                            break
+        index = {w: ps[0] for w, ps in pos.items()}
+        for i, w in enumerate(words):
+            for k in range(1, len(w)):
+                pfx = w[:k]
+                if pfx in index and index[pfx] > i and len(w) - k <= width(k):
+                    bad.append("table %s: %r precedes its prefix %r" % (name, w, pfx))
+                    break
+    check.assume("dictionary order contract validated on the bundled file at this run (%d words, %d tables, %d repeated entries): among the matches "
+                 "of a search pattern the typed word comes first and equal entries are adjacent" % (total, len(d), dups))
+    if bad:
+        check.obligation("dictionary_order_contract", "data", "inconclusive", "; ".join(bad[:3]))
+        return False
+    check.obligation("dictionary_order_contract", "data", "held", "%d words in %d tables, %d repeated entries (adjacent among matches)" % (total, len(d), dups))
+    return True
